@@ -733,7 +733,9 @@ class Esic:
             scf.run()
             at = scf.atoms
             ns = np.asarray(get_n_single(at, scf.Y))
+            scf.energies.Esic = 123.0  # sentinel: the contract is about the value STORED in the energies of the SCF object (Etot sums the stored fields)
             got = get_Esic(scf, scf.Y)
+            stored = float(scf.energies.Esic)
             want = 0.0
             for i in range(at.occ.Nstate):
                 for s_ in range(at.occ.Nspin):
@@ -744,7 +746,7 @@ class Esic:
                         dni = np.zeros((2, at.Ns, 3))
                         dni[0] = np.asarray(get_grad_field(at, ni))[0]
                         want += (get_Ecoul(at, ni[0]) + get_Exc(scf, ni[0], n_spin=ni, dn_spin=dni, Nspin=2)) * wgt
-            rows.append(dict(case=name, Esic=float(got), expected=float(want), bad=bool(abs(got - want) > 1e-9 * max(1.0, abs(want)))))
+            rows.append(dict(case=name, Esic=float(got), stored_in_scf_energies=stored, expected=float(want), bad=bool(abs(got - want) > 1e-9 * max(1.0, abs(want)) or abs(stored - float(got)) > 1e-12)))
         return any(r["bad"] for r in rows), dict(check="PBE: Esic vs sum_i w_i (E_H[n_i / w_i] + E_xc[n_i / w_i, 0])", cases=rows)
 
 
